@@ -129,4 +129,311 @@ theorem baseEpsDelta_ok (env : Env) :
   · rintro ⟨x, y, hx, hy, nx, ny, hz⟩
     exact ⟨⟨x, y, hx, hy⟩, ⟨x, hx, nx⟩, ⟨y, hy, ny⟩, (sumEq0_ok hx hy nx ny).mpr hz⟩
 
+
+/-! ### the class-specific (epsilon, delta) chains -/
+
+theorem lt_one_false_iff {x : Ext} (h : x.Nonneg) : Ext.lt .one x = false ↔ x.LeOne := by
+  cases x <;> simp_all [Ext.lt, Ext.one, Ext.LeOne, Ext.Nonneg]
+
+theorem pos_ltHalf_iff (y : Ext) : (Ext.lt .zero y && Ext.lt y .half) = true ↔ y.Pos ∧ y.LtHalf := by
+  cases y <;> simp [Ext.lt, Ext.zero, Ext.half, Ext.Pos, Ext.LtHalf]
+
+theorem pos_leHalf_iff (y : Ext) : (Ext.lt .zero y && Ext.le y .half) = true ↔ y.Pos ∧ y.LeHalf := by
+  cases y <;> simp [Ext.lt, Ext.le, Ext.zero, Ext.half, Ext.Pos, Ext.LeHalf]
+
+theorem le_twoEps_false_iff {x : Ext} (h : x.Nonneg) : Ext.le x .twoEpsneg = false ↔ x.GtTwoEpsneg := by
+  cases x <;> simp_all [Ext.le, Ext.twoEpsneg, Ext.GtTwoEpsneg, Ext.Nonneg]
+
+theorem realAndGt1_ok {env : Env} {a : Var} :
+    (Pred.realAndGt1 a).eval env = .ok false ↔ ∀ x, (env.v a).real? = some x → Ext.lt .one x = false := by
+  simp only [Pred.eval, Except.ok.injEq]
+  cases (env.v a).real? <;> simp
+
+theorem realAndNotIn0Half_ok {env : Env} {a : Var} :
+    (Pred.realAndNotIn0Half a).eval env = .ok false ↔
+      ∀ y, (env.v a).real? = some y → y.Pos ∧ y.LtHalf := by
+  simp only [Pred.eval, Except.ok.injEq]
+  cases (env.v a).real? <;> simp [← pos_ltHalf_iff]
+
+theorem notIn0HalfClosed_ok {env : Env} {a : Var} :
+    (Pred.notIn0HalfClosed a).eval env = .ok false ↔ ∃ y, (env.v a).real? = some y ∧ y.Pos ∧ y.LeHalf := by
+  simp only [Pred.eval, needReal_map_ok, Bool.not_eq_false', pos_leHalf_iff]
+
+theorem leTwoEpsneg_ok {env : Env} {a : Var} :
+    (Pred.leTwoEpsneg a).eval env = .ok false ↔ ∃ x, (env.v a).real? = some x ∧ Ext.le x .twoEpsneg = false := by
+  simp only [Pred.eval, needReal_map_ok]
+
+/-- `_check_epsilon_delta` of every class accepts EXACTLY the documented range -/
+theorem epsDelta_ok_iff (m : Mech) (env : Env) :
+    runChain env (chainOf m .epsDelta) = .ok () ↔ ValidEpsDelta m env := by
+  have pure_iff : runChain env pureEpsDelta = .ok () ↔
+      ∃ x y, BaseED env x y ∧ y.IsZero := by
+    unfold pureEpsDelta
+    rw [runChain_cons_ok, notEq0_ok, baseEpsDelta_ok]
+    constructor
+    · rintro ⟨⟨y', hy', hz⟩, x, y, hb⟩
+      have := hb.2.1; rw [hy'] at this; cases this
+      exact ⟨x, y', hb, hz⟩
+    · rintro ⟨x, y, hb, hz⟩
+      exact ⟨⟨y, hb.2.1, hz⟩, x, y, hb⟩
+  have pure_valid : ∀ (hc : ∀ x y, classRange m x y = y.IsZero),
+      (∃ x y, BaseED env x y ∧ y.IsZero) ↔ ValidEpsDelta m env := by
+    intro hc
+    unfold ValidEpsDelta BaseED
+    constructor
+    · rintro ⟨x, y, ⟨hx, hy, nx, ny, hz⟩, hp⟩; exact ⟨x, y, hx, hy, nx, ny, hz, by rw [hc]; exact hp⟩
+    · rintro ⟨x, y, hx, hy, nx, ny, hz, hp⟩; exact ⟨x, y, ⟨hx, hy, nx, ny, hz⟩, by rw [hc] at hp; exact hp⟩
+  have zeroEither : ∀ {x y}, BaseED env x y →
+      (((¬ ∃ x, (env.v .epsilon).real? = some x ∧ x.IsZero) ∧ ¬ ∃ y, (env.v .delta).real? = some y ∧ y.IsZero) ↔
+        (¬ x.IsZero ∧ ¬ y.IsZero)) := by
+    intro x y hb
+    constructor
+    · rintro ⟨h1, h2⟩; exact ⟨fun hz => h1 ⟨x, hb.1, hz⟩, fun hz => h2 ⟨y, hb.2.1, hz⟩⟩
+    · rintro ⟨h1, h2⟩
+      refine ⟨?_, ?_⟩
+      · rintro ⟨x', hx', hz⟩; rw [hb.1] at hx'; cases hx'; exact h1 hz
+      · rintro ⟨y', hy', hz⟩; rw [hb.2.1] at hy'; cases hy'; exact h2 hz
+  cases m
+  case Binary => exact pure_iff.trans (pure_valid (fun _ _ => rfl))
+  case Bingham => exact pure_iff.trans (pure_valid (fun _ _ => rfl))
+  case Exponential => exact pure_iff.trans (pure_valid (fun _ _ => rfl))
+  case PermuteAndFlip => exact pure_iff.trans (pure_valid (fun _ _ => rfl))
+  case ExponentialCategorical => exact pure_iff.trans (pure_valid (fun _ _ => rfl))
+  case ExponentialHierarchical => exact pure_iff.trans (pure_valid (fun _ _ => rfl))
+  case Geometric => exact pure_iff.trans (pure_valid (fun _ _ => rfl))
+  case GeometricTruncated => exact pure_iff.trans (pure_valid (fun _ _ => rfl))
+  case GeometricFolded => exact pure_iff.trans (pure_valid (fun _ _ => rfl))
+  case Staircase => exact pure_iff.trans (pure_valid (fun _ _ => rfl))
+  case Vector => exact pure_iff.trans (pure_valid (fun _ _ => rfl))
+  case Laplace =>
+    show runChain env baseEpsDelta = .ok () ↔ _
+    rw [baseEpsDelta_ok]; unfold ValidEpsDelta BaseED classRange; simp
+  case LaplaceTruncated =>
+    show runChain env baseEpsDelta = .ok () ↔ _
+    rw [baseEpsDelta_ok]; unfold ValidEpsDelta BaseED classRange; simp
+  case LaplaceFolded =>
+    show runChain env baseEpsDelta = .ok () ↔ _
+    rw [baseEpsDelta_ok]; unfold ValidEpsDelta BaseED classRange; simp
+  case LaplaceBoundedDomain =>
+    show runChain env baseEpsDelta = .ok () ↔ _
+    rw [baseEpsDelta_ok]; unfold ValidEpsDelta BaseED classRange; simp
+  case Snapping =>
+    show runChain env (pureEpsDelta ++ _) = .ok () ↔ _
+    rw [runChain_append_ok, pure_iff, runChain_cons_ok, leTwoEpsneg_ok, runChain_nil]
+    unfold ValidEpsDelta classRange
+    constructor
+    · rintro ⟨⟨x, y, hb, hz⟩, ⟨x', hx', hl⟩, _⟩
+      have hxx : x = x' := Option.some.inj (hb.1.symm.trans hx')
+      subst hxx
+      exact ⟨x, y, hb.1, hb.2.1, hb.2.2.1, hb.2.2.2.1, hb.2.2.2.2, hz, (le_twoEps_false_iff hb.2.2.1).mp hl⟩
+    · rintro ⟨x, y, hx, hy, nx, ny, hz, hp, hg⟩
+      exact ⟨⟨x, y, ⟨hx, hy, nx, ny, hz⟩, hp⟩, ⟨x, hx, (le_twoEps_false_iff nx).mpr hg⟩, rfl⟩
+  case Gaussian =>
+    show runChain env (_ :: _ :: baseEpsDelta) = .ok () ↔ _
+    rw [runChain_cons_ok, runChain_cons_ok, eq0Either_ok, realAndGt1_ok, baseEpsDelta_ok]
+    unfold ValidEpsDelta classRange
+    constructor
+    · rintro ⟨hz, hg, x, y, hb⟩
+      have h := (zeroEither hb).mp hz
+      exact ⟨x, y, hb.1, hb.2.1, hb.2.2.1, hb.2.2.2.1, hb.2.2.2.2, h.1, h.2,
+        (lt_one_false_iff hb.2.2.1).mp (hg x hb.1)⟩
+    · rintro ⟨x, y, hx, hy, nx, ny, hz, h1, h2, h3⟩
+      have hb : BaseED env x y := ⟨hx, hy, nx, ny, hz⟩
+      refine ⟨(zeroEither hb).mpr ⟨h1, h2⟩, ?_, x, y, hb⟩
+      intro x' hx'; rw [hx] at hx'; cases hx'; exact (lt_one_false_iff nx).mpr h3
+  case GaussianAnalytic =>
+    show runChain env (_ :: baseEpsDelta) = .ok () ↔ _
+    rw [runChain_cons_ok, eq0Either_ok, baseEpsDelta_ok]
+    unfold ValidEpsDelta classRange
+    constructor
+    · rintro ⟨hz, x, y, hb⟩
+      have h := (zeroEither hb).mp hz
+      exact ⟨x, y, hb.1, hb.2.1, hb.2.2.1, hb.2.2.2.1, hb.2.2.2.2, h.1, h.2⟩
+    · rintro ⟨x, y, hx, hy, nx, ny, hz, h1, h2⟩
+      have hb : BaseED env x y := ⟨hx, hy, nx, ny, hz⟩
+      exact ⟨(zeroEither hb).mpr ⟨h1, h2⟩, x, y, hb⟩
+  case GaussianDiscrete =>
+    show runChain env (_ :: baseEpsDelta) = .ok () ↔ _
+    rw [runChain_cons_ok, eq0Either_ok, baseEpsDelta_ok]
+    unfold ValidEpsDelta classRange
+    constructor
+    · rintro ⟨hz, x, y, hb⟩
+      have h := (zeroEither hb).mp hz
+      exact ⟨x, y, hb.1, hb.2.1, hb.2.2.1, hb.2.2.2.1, hb.2.2.2.2, h.1, h.2⟩
+    · rintro ⟨x, y, hx, hy, nx, ny, hz, h1, h2⟩
+      have hb : BaseED env x y := ⟨hx, hy, nx, ny, hz⟩
+      exact ⟨(zeroEither hb).mpr ⟨h1, h2⟩, x, y, hb⟩
+  case LaplaceBoundedNoise =>
+    show runChain env (_ :: _ :: baseEpsDelta) = .ok () ↔ _
+    rw [runChain_cons_ok, runChain_cons_ok, eq0_ok, realAndNotIn0Half_ok, baseEpsDelta_ok]
+    unfold ValidEpsDelta classRange
+    constructor
+    · rintro ⟨hz, hh, x, y, hb⟩
+      exact ⟨x, y, hb.1, hb.2.1, hb.2.2.1, hb.2.2.2.1, hb.2.2.2.2, fun h => hz ⟨x, hb.1, h⟩, hh y hb.2.1⟩
+    · rintro ⟨x, y, hx, hy, nx, ny, hz, h1, h2⟩
+      refine ⟨?_, ?_, x, y, hx, hy, nx, ny, hz⟩
+      · rintro ⟨x', hx', hz'⟩; rw [hx] at hx'; cases hx'; exact h1 hz'
+      · intro y' hy'; rw [hy] at hy'; cases hy'; exact h2
+  case Uniform =>
+    show runChain env (_ :: _ :: baseEpsDelta) = .ok () ↔ _
+    rw [runChain_cons_ok, runChain_cons_ok, notEq0_ok, notIn0HalfClosed_ok, baseEpsDelta_ok]
+    unfold ValidEpsDelta classRange
+    constructor
+    · rintro ⟨⟨x', hx', hz'⟩, ⟨y', hy', hp⟩, x, y, hb⟩
+      have h1 := hb.1; rw [hx'] at h1; cases h1
+      have h2 := hb.2.1; rw [hy'] at h2; cases h2
+      exact ⟨x', y', hb.1, hb.2.1, hb.2.2.1, hb.2.2.2.1, hb.2.2.2.2, hz', hp⟩
+    · rintro ⟨x, y, hx, hy, nx, ny, hz, h1, h2⟩
+      exact ⟨⟨x, hx, h1⟩, ⟨y, hy, h2⟩, x, y, hx, hy, nx, ny, hz⟩
+
+
+/-! ### sensitivity, bounds, the other numeric parameters, structured parameters -/
+
+theorem realSens_ok (env : Env) : runChain env realSens = .ok () ↔ realNonneg (env.v .sensitivity) := by
+  unfold realSens realNonneg
+  simp only [runChain_cons_ok, notReal_ok, notGe0_ok, runChain_nil, and_true]
+  constructor
+  · rintro ⟨-, h⟩; exact h
+  · rintro ⟨x, hx, nx⟩; exact ⟨⟨x, hx⟩, x, hx, nx⟩
+
+theorem intSens_ok (env : Env) :
+    runChain env intSens = .ok () ↔ (env.v .sensitivity).isIntegral = true ∧ realNonneg (env.v .sensitivity) := by
+  unfold intSens realNonneg
+  simp only [runChain_cons_ok, notIntegral_ok, notGe0_ok, runChain_nil, and_true]
+
+theorem sens_ok_iff (m : Mech) (env : Env) :
+    runChain env (chainOf m .sensitivity) = .ok () ↔ ValidSens m env := by
+  cases m <;> first
+    | exact realSens_ok env
+    | exact intSens_ok env
+    | (show runChain env [] = .ok () ↔ True; simp)
+    | skip
+  -- Vector
+  show runChain env [_, _, _] = .ok () ↔ realNonneg _ ∧ realNonneg _
+  unfold realNonneg
+  simp only [runChain_cons_ok, notRealEither_ok, notGe0_ok, runChain_nil, and_true]
+  constructor
+  · rintro ⟨-, h1, h2⟩; exact ⟨h1, h2⟩
+  · rintro ⟨⟨x, hx, nx⟩, ⟨y, hy, ny⟩⟩; exact ⟨⟨x, y, hx, hy⟩, ⟨x, hx, nx⟩, ⟨y, hy, ny⟩⟩
+
+theorem lt_false_iff_not_gt (l u : Ext) : Ext.lt u l = false ↔ ¬ l.Gt u := by
+  cases l <;> cases u <;> simp [Ext.lt, Ext.Gt]
+
+theorem gt_ok {env : Env} {a b : Var} :
+    (Pred.gt a b).eval env = .ok false ↔
+      ∃ x y, (env.v a).real? = some x ∧ (env.v b).real? = some y ∧ ¬ x.Gt y := by
+  simp only [Pred.eval, needReal, bind, Except.bind, pure, Except.pure]
+  cases (env.v a).real? <;> cases (env.v b).real? <;> simp [lt_false_iff_not_gt]
+
+theorem baseBounds_ok (env : Env) : runChain env baseBounds = .ok () ↔ baseBoundsOk env := by
+  unfold baseBounds baseBoundsOk
+  simp only [runChain_cons_ok, notRealEither_ok, gt_ok, runChain_nil, and_true]
+  constructor
+  · rintro ⟨-, h⟩; exact h
+  · rintro ⟨l, u, hl, hu, h⟩; exact ⟨⟨l, u, hl, hu⟩, l, u, hl, hu, h⟩
+
+theorem notIntegralNotInf_ok {env : Env} {a : Var} :
+    (Pred.notIntegralNotInf a).eval env = .ok false ↔ integralOrInf (env.v a) := by
+  unfold integralOrInf
+  simp only [Pred.eval]
+  by_cases hi : (env.v a).isIntegral = true
+  · simp [hi]
+  · simp only [hi, Bool.false_eq_true, ↓reduceIte, needReal_map_ok, Bool.not_eq_false', false_or]
+
+theorem notHalfIntEither_ok {env : Env} {a b : Var} :
+    (Pred.notHalfIntEither a b).eval env = .ok false ↔
+      ∃ l u, (env.v a).real? = some l ∧ (env.v b).real? = some u ∧ halfIntClose l = true ∧ halfIntClose u = true := by
+  simp only [Pred.eval, needReal, bind, Except.bind, pure, Except.pure]
+  cases (env.v a).real? with
+  | none => simp
+  | some l =>
+    cases hl : halfIntClose l with
+    | false => simp [hl]
+    | true => cases (env.v b).real? <;> simp [hl]
+
+theorem notFiniteDiff_ok {env : Env} {a b : Var} :
+    (Pred.notFiniteDiff a b).eval env = .ok false ↔
+      ∃ x y, (env.v a).real? = some x ∧ (env.v b).real? = some y ∧ x.isFin = true ∧ y.isFin = true := by
+  simp only [Pred.eval, needReal, bind, Except.bind, pure, Except.pure]
+  cases (env.v a).real? <;> cases (env.v b).real? <;> simp
+
+theorem bounds_ok_iff (m : Mech) (env : Env) :
+    runChain env (chainOf m .bounds) = .ok () ↔ ValidBounds m env := by
+  cases m <;> first
+    | exact baseBounds_ok env
+    | (show runChain env [] = .ok () ↔ True; simp)
+    | skip
+  · -- GeometricTruncated
+    show runChain env (_ :: _ :: baseBounds) = .ok () ↔ _ ∧ _ ∧ _
+    rw [runChain_cons_ok, runChain_cons_ok, notIntegralNotInf_ok, notIntegralNotInf_ok, baseBounds_ok]
+  · -- GeometricFolded
+    show runChain env (_ :: baseBounds) = .ok () ↔ _ ∧ _
+    rw [runChain_cons_ok, notHalfIntEither_ok, baseBounds_ok]
+  · -- Snapping
+    show runChain env (baseBounds ++ [_]) = .ok () ↔ _ ∧ _
+    rw [runChain_append_ok, runChain_cons_ok, notFiniteDiff_ok, baseBounds_ok, runChain_nil]
+    constructor
+    · rintro ⟨h, ⟨u, l, hu, hl, fu, fl⟩, _⟩; exact ⟨h, l, u, hl, hu, fl, fu⟩
+    · rintro ⟨h, l, u, hl, hu, fl, fu⟩; exact ⟨h, ⟨u, l, hu, hl, fu, fl⟩, rfl⟩
+
+theorem le_zero_false_iff (a : Ext) : Ext.le a .zero = false ↔ ¬ a.Nonpos := by
+  cases a <;> simp [Ext.le, Ext.zero, Ext.Nonpos]
+
+theorem le0_ok {env : Env} {a : Var} :
+    (Pred.le0 a).eval env = .ok false ↔ ∃ x, (env.v a).real? = some x ∧ ¬ x.Nonpos := by
+  simp only [Pred.eval, needReal_map_ok, le_zero_false_iff]
+
+theorem dimNotInt_ok {env : Env} {a : Var} :
+    (Pred.dimNotInt a).eval env = .ok false ↔
+      ∃ q, (env.v a).real? = some (.fin q) ∧ isclose q (truncInt q) = true := by
+  simp only [Pred.eval]
+  cases (env.v a).real? with
+  | none => simp
+  | some x => cases x <;> simp
+
+theorem dimLt1_ok {env : Env} {a : Var} :
+    (Pred.dimLt1 a).eval env = .ok false ↔ ∃ q, (env.v a).real? = some (.fin q) ∧ 1 ≤ truncInt q := by
+  simp only [Pred.eval]
+  cases (env.v a).real? with
+  | none => simp
+  | some x => cases x <;> simp
+
+/-- gamma, alpha, dimension -/
+theorem other_ok_iff (m : Mech) (env : Env) :
+    (runChain env (chainOf m .gamma) = .ok () ∧ runChain env (chainOf m .alpha) = .ok () ∧
+      runChain env (chainOf m .dimension) = .ok ()) ↔ ValidOther m env := by
+  cases m <;> first
+    | (show (runChain env [] = .ok () ∧ runChain env [] = .ok () ∧ runChain env [] = .ok ()) ↔ True; simp)
+    | skip
+  · -- Staircase
+    show (runChain env [_, _] = .ok () ∧ runChain env [] = .ok () ∧ runChain env [] = .ok ()) ↔ _
+    simp only [runChain_cons_ok, notReal_ok, notIn01_ok, runChain_nil, and_true, ValidOther]
+    constructor
+    · rintro ⟨-, h⟩; exact h
+    · rintro ⟨g, hg, ng⟩; exact ⟨⟨g, hg⟩, g, hg, ng⟩
+  · -- Vector
+    show (runChain env [] = .ok () ∧ runChain env [_, _] = .ok () ∧ runChain env [_, _] = .ok ()) ↔ _
+    simp only [runChain_cons_ok, notReal_ok, le0_ok, dimNotInt_ok, dimLt1_ok, runChain_nil, and_true, true_and,
+      ValidOther]
+    constructor
+    · rintro ⟨⟨-, ha⟩, ⟨q, hq, hc⟩, ⟨q', hq', ht⟩⟩
+      rw [hq] at hq'; cases hq'
+      exact ⟨ha, q, hq, hc, ht⟩
+    · rintro ⟨⟨a, ha, na⟩, q, hq, hc, ht⟩
+      exact ⟨⟨⟨a, ha⟩, a, ha, na⟩, ⟨q, hq, hc⟩, ⟨q, hq, ht⟩⟩
+
+/-- labels, utility / candidates / measure -/
+theorem structured_ok_iff (m : Mech) (env : Env) :
+    (runChain env (chainOf m .labels) = .ok () ∧ runChain env (chainOf m .utility) = .ok ()) ↔
+      ValidStructured m env := by
+  cases m <;> first
+    | (show (runChain env [] = .ok () ∧ runChain env [] = .ok ()) ↔ True; simp)
+    | skip
+  · show (runChain env [_, _, _] = .ok () ∧ runChain env [] = .ok ()) ↔ _
+    simp only [runChain_cons_ok, flag_ok, runChain_nil, and_true, ValidStructured]
+  · show (runChain env [] = .ok () ∧ runChain env [_, _, _, _, _, _, _, _, _, _, _] = .ok ()) ↔ _
+    simp only [runChain_cons_ok, flag_ok, runChain_nil, and_true, true_and, ValidStructured]
+  · show (runChain env [] = .ok () ∧ runChain env [_, _, _, _, _, _, _, _, _, _, _] = .ok ()) ↔ _
+    simp only [runChain_cons_ok, flag_ok, runChain_nil, and_true, true_and, ValidStructured]
+
 end DPL.Val
